@@ -514,7 +514,12 @@ func (c *diskCache) availableOrTryProxy(kind cache.EntryKind, hash string, size 
 
 					verifhook.Step("get.beforeremove", key)
 					c.mu.Lock()
-					c.lru.RemoveElement(listElem)
+					// The lock was released after the lookup: only remove the
+					// entry if it is still the one we failed to read, not if
+					// another request already removed or replaced it.
+					if c.lru.holds(key, listElem, item) {
+						c.lru.RemoveElement(listElem)
+					}
 					c.mu.Unlock()
 				} else {
 					return rc, item.size, false, nil
